@@ -1,1 +1,417 @@
-//! C17 harnesses (not written yet).
+//! C17 — bit iterators behave like a slice iterator over the bits.
+//!
+//! Oracle: an index-range model `(s, e)` of `bits[..len].iter()` (`std::slice::Iter`), whose
+//! answers are computed from the raw pre-state `(len, value)`. The model is validated
+//! natively against `std::slice::Iter` in the `#[cfg(test)]` module at the bottom.
+//!
+//! Shape of a harness: two symbolic non-consuming calls (reach every state `0<=s<=e<=len`),
+//! then a third symbolic call among *all* methods with any `usize` argument, then a fixed
+//! probe `size_hint, next, next_back, next, next_back` which exposes the post-state (the
+//! bits are symbolic, so any difference of the index pair is observable). The vector's raw
+//! storage is compared with the pre-state at the end.
+use crate::big::Big;
+use crate::nd;
+use crate::scopes::*;
+use bva::{Bit, BitIterator, BitVector, Bv, Bvd, Bvf};
+
+/// `bits[s..e]` of the list of bits of the vector: the whole state of a slice iterator.
+#[derive(Clone, Copy, Debug, PartialEq, Eq)]
+pub struct M {
+    pub s: usize,
+    pub e: usize,
+}
+
+impl M {
+    #[inline(always)]
+    pub fn next(&mut self, v: Big) -> Option<bool> {
+        if self.s < self.e {
+            let b = bit_at(v, self.s);
+            self.s += 1;
+            Some(b)
+        } else {
+            None
+        }
+    }
+    #[inline(always)]
+    pub fn next_back(&mut self, v: Big) -> Option<bool> {
+        if self.s < self.e {
+            self.e -= 1;
+            Some(bit_at(v, self.e))
+        } else {
+            None
+        }
+    }
+    #[inline(always)]
+    pub fn nth(&mut self, v: Big, n: usize) -> Option<bool> {
+        if n < self.e - self.s {
+            let b = bit_at(v, self.s + n);
+            self.s += n + 1;
+            Some(b)
+        } else {
+            self.s = self.e;
+            None
+        }
+    }
+    #[inline(always)]
+    pub fn nth_back(&mut self, v: Big, n: usize) -> Option<bool> {
+        if n < self.e - self.s {
+            self.e -= n + 1;
+            Some(bit_at(v, self.e))
+        } else {
+            self.e = self.s;
+            None
+        }
+    }
+    #[inline(always)]
+    pub fn rem(&self) -> usize {
+        self.e - self.s
+    }
+    #[inline(always)]
+    pub fn last(&self, v: Big) -> Option<bool> {
+        if self.s < self.e {
+            Some(bit_at(v, self.e - 1))
+        } else {
+            None
+        }
+    }
+}
+
+/// Bit `i` of a model value (cheaper for the solver than `Big::bit`: no cross-half shift).
+#[inline(always)]
+pub fn bit_at(v: Big, i: usize) -> bool {
+    if i < 128 {
+        (v.lo >> i) & 1 == 1
+    } else if i < 256 {
+        (v.hi >> (i - 128)) & 1 == 1
+    } else {
+        false
+    }
+}
+
+#[inline(always)]
+fn same(got: Option<Bit>, want: Option<bool>) -> bool {
+    match (got, want) {
+        (None, None) => true,
+        (Some(g), Some(w)) => (g == Bit::One) == w,
+        _ => false,
+    }
+}
+
+/// One non-consuming call chosen by `sel` (0 next, 1 next_back, 2 nth(arg), 3 nth_back(arg),
+/// 4 size_hint), checked against the model.
+#[inline(always)]
+fn step<I: DoubleEndedIterator<Item = Bit>>(it: &mut I, m: &mut M, v: Big, sel: usize, arg: usize) {
+    if sel == 0 {
+        let r = it.next();
+        assert!(same(r, m.next(v)), "C17: next() differs from the slice iterator");
+    } else if sel == 1 {
+        let r = it.next_back();
+        assert!(same(r, m.next_back(v)), "C17: next_back() differs from the slice iterator");
+    } else if sel == 2 {
+        let r = it.nth(arg);
+        assert!(same(r, m.nth(v, arg)), "C17: nth(n) differs from the slice iterator");
+    } else if sel == 3 {
+        let r = it.nth_back(arg);
+        assert!(same(r, m.nth_back(v, arg)), "C17: nth_back(n) differs from the slice iterator");
+    } else {
+        let r = it.size_hint();
+        assert!(r == (m.rem(), Some(m.rem())), "C17: size_hint() differs from the slice iterator");
+    }
+}
+
+/// The same on the reversed view: the model of `rev()` swaps the two ends.
+#[inline(always)]
+fn step_rev<I: DoubleEndedIterator<Item = Bit>>(it: &mut I, m: &mut M, v: Big, sel: usize, arg: usize) {
+    if sel == 0 {
+        let r = it.next();
+        assert!(same(r, m.next_back(v)), "C17: rev().next() differs from the slice iterator");
+    } else if sel == 1 {
+        let r = it.next_back();
+        assert!(same(r, m.next(v)), "C17: rev().next_back() differs from the slice iterator");
+    } else if sel == 2 {
+        let r = it.nth(arg);
+        assert!(same(r, m.nth_back(v, arg)), "C17: rev().nth(n) differs from the slice iterator");
+    } else if sel == 3 {
+        let r = it.nth_back(arg);
+        assert!(same(r, m.nth(v, arg)), "C17: rev().nth_back(n) differs from the slice iterator");
+    } else {
+        let r = it.size_hint();
+        assert!(r == (m.rem(), Some(m.rem())), "C17: rev().size_hint() differs from the slice iterator");
+    }
+}
+
+/// Fixed probe exposing the post-state; also checks "None for ever once exhausted".
+#[inline(always)]
+fn probe<I: DoubleEndedIterator<Item = Bit>>(it: &mut I, m: &mut M, v: Big) {
+    let h = it.size_hint();
+    assert!(h == (m.rem(), Some(m.rem())), "C17: size_hint() after the call sequence differs");
+    let was_exhausted = m.rem() == 0;
+    let r = it.next();
+    assert!(same(r, m.next(v)), "C17: next() after the call sequence differs");
+    let r = it.next_back();
+    assert!(same(r, m.next_back(v)), "C17: next_back() after the call sequence differs");
+    let r1 = it.next();
+    assert!(same(r1, m.next(v)), "C17: second next() after the call sequence differs");
+    let r2 = it.next_back();
+    assert!(same(r2, m.next_back(v)), "C17: second next_back() after the call sequence differs");
+    if was_exhausted {
+        assert!(r.is_none() && r1.is_none() && r2.is_none(), "C17: exhausted iterator yielded an element");
+        assert!(it.size_hint() == (0, Some(0)), "C17: exhausted iterator reports remaining elements");
+    }
+}
+
+macro_rules! mk_iter {
+    (iter, $a:ident) => {
+        $a.iter()
+    };
+    (into, $a:ident) => {
+        (&$a).into_iter()
+    };
+}
+
+/// Two symbolic non-consuming calls, then any method (incl. the consuming `count`/`last`),
+/// then the probe.
+macro_rules! h_seq {
+    ($name:ident, $unw:literal, $a:expr, $mk:ident) => {
+        harness!($name, $unw, {
+            let (a, ra) = $a;
+            let n = ra.len;
+            let v = ra.v;
+            let mut m = M { s: 0, e: n };
+            {
+                let mut it = mk_iter!($mk, a);
+                assert!(it.size_hint() == (n, Some(n)), "C17: fresh iterator does not span 0..len");
+                let s1 = nd::upto(4);
+                let a1 = nd::usize();
+                step(&mut it, &mut m, v, s1, a1);
+                let s2 = nd::upto(4);
+                let a2 = nd::usize();
+                step(&mut it, &mut m, v, s2, a2);
+                let s3 = nd::upto(6);
+                let a3 = nd::usize();
+                w!(m.s > 0 && m.e < n && m.rem() > 1 && (s3 == 2 || s3 == 3) && a3 > 0 && a3 < m.rem(), "nth / nth_back hitting inside an iterator consumed from both ends");
+                w!(m.rem() > 0 && (s3 == 2 || s3 == 3) && a3 == usize::MAX, "nth / nth_back with usize::MAX on a non-empty iterator");
+                w!(m.s > 0 && m.rem() > 0 && s3 == 2 && a3 > usize::MAX - m.s, "start + n overflows usize");
+                w!(m.rem() == 0 && n > 0, "third call on an exhausted iterator");
+                w!(n == 0, "empty vector");
+                if s3 == 5 {
+                    let c = it.count();
+                    assert!(c == m.rem(), "C17: count() differs from the slice iterator");
+                } else if s3 == 6 {
+                    let l = it.last();
+                    assert!(same(l, m.last(v)), "C17: last() differs from the slice iterator");
+                } else {
+                    step(&mut it, &mut m, v, s3, a3);
+                    w!(m.rem() > 0 && m.s > 0 && m.e < n, "probe on a partially consumed iterator");
+                    probe(&mut it, &mut m, v);
+                }
+            }
+            assert!(a.into_raw() == ra, "C17: iterating modified the vector");
+        });
+    };
+}
+
+/// Two symbolic calls, `rev()`, one symbolic call on the reversed iterator, probe (reversed).
+macro_rules! h_rev {
+    ($name:ident, $unw:literal, $a:expr, $mk:ident) => {
+        harness!($name, $unw, {
+            let (a, ra) = $a;
+            let n = ra.len;
+            let v = ra.v;
+            let mut m = M { s: 0, e: n };
+            {
+                let mut it = mk_iter!($mk, a);
+                let s1 = nd::upto(4);
+                let a1 = nd::usize();
+                step(&mut it, &mut m, v, s1, a1);
+                let s2 = nd::upto(4);
+                let a2 = nd::usize();
+                step(&mut it, &mut m, v, s2, a2);
+                let mut r = it.rev();
+                let s3 = nd::upto(4);
+                let a3 = nd::usize();
+                w!(m.s > 0 && m.e < n && m.rem() > 1 && s3 == 2 && a3 > 0 && a3 < m.rem(), "rev().nth(n) inside an iterator consumed from both ends");
+                w!(m.rem() > 0 && s3 >= 2 && s3 <= 3 && a3 == usize::MAX, "rev().nth / nth_back with usize::MAX");
+                w!(m.rem() == 0 && n > 0, "rev() of an exhausted iterator");
+                step_rev(&mut r, &mut m, v, s3, a3);
+                // probe through the reversed view
+                let h = r.size_hint();
+                assert!(h == (m.rem(), Some(m.rem())), "C17: rev().size_hint() after the call sequence differs");
+                let x = r.next();
+                assert!(same(x, m.next_back(v)), "C17: rev().next() after the call sequence differs");
+                let y = r.next_back();
+                assert!(same(y, m.next(v)), "C17: rev().next_back() after the call sequence differs");
+                let z = r.next();
+                assert!(same(z, m.next_back(v)), "C17: second rev().next() after the call sequence differs");
+            }
+            assert!(a.into_raw() == ra, "C17: iterating modified the vector");
+        });
+    };
+}
+
+/// `rev().count()` / `rev().last()` / `rev()` driven by a `for` loop: std's default
+/// implementations, which drain the iterator through `next_back` (per-bit loop).
+macro_rules! h_revdrain {
+    ($name:ident, $unw:literal, $a:expr, $mk:ident) => {
+        harness!($name, $unw, {
+            let (a, ra) = $a;
+            let n = ra.len;
+            let v = ra.v;
+            let mut m = M { s: 0, e: n };
+            {
+                let mut it = mk_iter!($mk, a);
+                let s1 = nd::upto(4);
+                let a1 = nd::usize();
+                step(&mut it, &mut m, v, s1, a1);
+                let s2 = nd::upto(4);
+                let a2 = nd::usize();
+                step(&mut it, &mut m, v, s2, a2);
+                w!(m.s > 0 && m.e < n && m.rem() > 1, "drained after consumption from both ends");
+                w!(m.rem() == 0, "drained when already exhausted");
+                if nd::bool() {
+                    let c = it.rev().count();
+                    assert!(c == m.rem(), "C17: rev().count() differs from the slice iterator");
+                } else {
+                    let l = it.rev().last();
+                    let want = if m.s < m.e { Some(bit_at(v, m.s)) } else { None };
+                    assert!(same(l, want), "C17: rev().last() differs from the slice iterator");
+                }
+            }
+            assert!(a.into_raw() == ra, "C17: iterating modified the vector");
+        });
+    };
+}
+
+/// Full traversals: `for b in &a` yields bits 0..len-1 in order, `for b in a.iter().rev()` the
+/// reverse, and `None` follows.
+macro_rules! h_walk {
+    ($name:ident, $unw:literal, $a:expr) => {
+        harness!($name, $unw, {
+            let (a, ra) = $a;
+            let n = ra.len;
+            w!(n == 0, "empty vector");
+            w!(n > 8 && ra.v.bit(n - 1) && !ra.v.bit(0), "top bit set and bit 0 clear, more than one byte");
+            let mut acc = Big::ZERO;
+            let mut i = 0usize;
+            for b in &a {
+                if b == Bit::One {
+                    acc = acc.or(Big::ONE.shl(i));
+                }
+                i += 1;
+            }
+            assert!(i == n, "C17: for-loop over &vector does not yield len items");
+            assert!(acc == ra.v, "C17: for-loop over &vector yields the bits out of order");
+            let mut acc = Big::ZERO;
+            let mut j = n;
+            let mut it = a.iter();
+            while let Some(b) = it.next_back() {
+                assert!(j > 0, "C17: next_back yields more than len items");
+                j -= 1;
+                if b == Bit::One {
+                    acc = acc.or(Big::ONE.shl(j));
+                }
+            }
+            assert!(j == 0 && acc == ra.v, "C17: backward traversal does not yield bits len-1..0");
+            assert!(it.next().is_none() && it.next_back().is_none() && it.nth(0).is_none(), "C17: drained iterator yielded an element");
+            assert!(a.into_raw() == ra, "C17: iterating modified the vector");
+        });
+    };
+}
+
+// ---- call sequences ----------------------------------------------------------------------
+h_seq!(c17_q_seq_f8x2, 2, f8x2(anylen(16)), iter);
+h_seq!(c17_q_seq_f8x2_into, 2, f8x2(anylen(16)), into);
+h_seq!(c17_q_seq_f8x3, 2, f8x3(anylen(24)), iter);
+h_seq!(c17_q_seq_f16x2, 2, f16x2(anylen(32)), into);
+h_seq!(c17_q_seq_f64x2, 2, f64x2(anylen(128)), iter);
+h_seq!(c17_q_seq_bvd2, 2, bvd2(anylen(128)), iter);
+h_seq!(c17_t_seq_bvd2_into, 2, bvd2(anylen(128)), into);
+h_seq!(c17_q_seq_bvfix, 2, bvfix(anylen(128)), iter);
+h_seq!(c17_t_seq_bvfix_into, 2, bvfix(anylen(128)), into);
+h_seq!(c17_q_seq_bvdyn2, 2, bvdyn2(anylen(128)), iter);
+h_seq!(c17_t_seq_bvdyn2_into, 2, bvdyn2(anylen(128)), into);
+h_seq!(c17_t_seq_f8x1, 2, f8x1(anylen(8)), iter);
+h_seq!(c17_t_seq_f32x2, 2, f32x2(anylen(64)), iter);
+h_seq!(c17_t_seq_fuszx2, 2, fuszx2(anylen(128)), into);
+h_seq!(c17_t_seq_f128x2, 2, f128x2(anylen(256)), iter);
+h_seq!(c17_t_seq_f64x3, 2, f64x3(anylen(192)), into);
+h_seq!(c17_t_seq_bvd3, 2, bvd3(anylen(192)), iter);
+h_seq!(c17_t_seq_bvd1, 2, bvd1(anylen(64)), into);
+h_seq!(c17_t_seq_bvdyn3, 2, bvdyn3(anylen(192)), into);
+
+// ---- rev() -------------------------------------------------------------------------------
+h_rev!(c17_q_rev_f8x2, 2, f8x2(anylen(16)), iter);
+h_rev!(c17_q_rev_f64x2, 2, f64x2(anylen(128)), into);
+h_rev!(c17_q_rev_bvd2, 2, bvd2(anylen(128)), iter);
+h_rev!(c17_q_rev_bvfix, 2, bvfix(anylen(128)), into);
+h_rev!(c17_t_rev_bvdyn2, 2, bvdyn2(anylen(128)), iter);
+h_rev!(c17_t_rev_f16x2, 2, f16x2(anylen(32)), iter);
+h_rev!(c17_t_rev_bvd3, 2, bvd3(anylen(192)), into);
+h_revdrain!(c17_q_revdrain_f8x2, 18, f8x2(anylen(16)), iter);
+h_revdrain!(c17_t_revdrain_bvd1, 18, bvd1(anylen(16)), iter);
+h_revdrain!(c17_t_revdrain_bvfix, 18, bvfix(anylen(16)), into);
+
+// ---- full traversals (per-bit loops: unwind len + 2) -----------------------------------------
+h_walk!(c17_q_walk_f8x2, 18, f8x2(anylen(16)));
+h_walk!(c17_t_walk_f16x1, 18, f16x1(anylen(16)));
+h_walk!(c17_q_walk_bvd1, 18, bvd1(anylen(16)));
+h_walk!(c17_t_walk_bvfix, 18, bvfix(anylen(16)));
+h_walk!(c17_t_walk_f8x3, 26, f8x3(anylen(24)));
+h_walk!(c17_t_walk_bvdyn2, 18, bvdyn2(anylen(16)));
+
+#[cfg(test)]
+mod tests {
+    use super::M;
+    use crate::big::Big;
+
+    /// The index-range model answers exactly like `std::slice::Iter` over the list of bits,
+    /// for every call sequence of length 4 over every method, with arguments around every
+    /// boundary, on every list length 0..=6 (exhaustive), and the post-states agree.
+    #[test]
+    fn model_matches_slice_iter() {
+        let args = [0usize, 1, 2, 3, 5, 6, 7, usize::MAX - 1, usize::MAX];
+        let mut calls: Vec<(usize, usize)> = vec![(0, 0), (1, 0), (4, 0)];
+        for &a in &args {
+            calls.push((2, a));
+            calls.push((3, a));
+        }
+        for len in 0..=6usize {
+            let val: u128 = 0b101101 & ((1u128 << len) - 1);
+            let v = Big::lo(val);
+            let bits: Vec<bool> = (0..len).map(|i| (val >> i) & 1 == 1).collect();
+            // tag every element with its index so that positions, not just values, are compared
+            let tagged: Vec<(usize, bool)> = bits.iter().cloned().enumerate().collect();
+            let n = calls.len();
+            for code in 0..n * n * n * n {
+                let seq = [code % n, code / n % n, code / (n * n) % n, code / (n * n * n)];
+                let mut it = tagged.iter();
+                let mut m = M { s: 0, e: len };
+                for &ci in &seq {
+                    let (sel, a) = calls[ci];
+                    match sel {
+                        0 => {
+                            let want_idx = if m.s < m.e { Some(m.s) } else { None };
+                            assert_eq!(it.next().map(|t| t.1), m.next(v));
+                            let _ = want_idx;
+                        }
+                        1 => assert_eq!(it.next_back().map(|t| t.1), m.next_back(v)),
+                        2 => assert_eq!(it.nth(a).map(|t| t.1), m.nth(v, a)),
+                        3 => assert_eq!(it.nth_back(a).map(|t| t.1), m.nth_back(v, a)),
+                        _ => assert_eq!(it.size_hint(), (m.rem(), Some(m.rem()))),
+                    }
+                    // the remaining slice is exactly tagged[s..e] (or empty)
+                    let rest = it.as_slice();
+                    assert_eq!(rest.len(), m.rem());
+                    if !rest.is_empty() {
+                        assert_eq!(rest[0].0, m.s);
+                        assert_eq!(rest[rest.len() - 1].0, m.e - 1);
+                    }
+                }
+                assert_eq!(it.clone().count(), m.rem());
+                assert_eq!(it.clone().last().map(|t| t.1), m.last(v));
+                assert_eq!(it.clone().rev().last().map(|t| t.1), if m.s < m.e { Some(v.bit(m.s)) } else { None });
+                assert_eq!(it.clone().rev().count(), m.rem());
+            }
+        }
+    }
+}
